@@ -1,4 +1,10 @@
-"""C42 Program capture round-trips quantum functions."""
+"""C42 Program capture round-trips quantum functions.
+
+FINDING reported by this check on the pinned tree (key exec:adjoint-of-adjoint-of-CollectedSubroutine):
+qp.adjoint(qp.adjoint(sub)) of a qp.capture.subroutine, captured and converted with plxpr_to_tape, gives
+Adjoint(Adjoint(CollectedSubroutine)); Adjoint.adjoint() returns base.queue() and CollectedSubroutine.queue()
+(templates/core.py) returns None, so the decomposition is [None] and default.qubit raises AttributeError, while the
+directly built tape executes."""
 from vlib import *
 
 PID = "C42"
@@ -7,7 +13,7 @@ META = {
     "technique": "Coq proof by mutual structural induction over a structured program language (direct tape semantics vs interpreter rules of plxpr_to_tape on the captured program) + vm_compute correspondence of both op lists against make_qscript and make_jaxpr/plxpr_to_tape + default.qubit differential",
     "design_ref": "DESIGN.md §3 C42",
     "text": "Kernel-checked theorems (Props/C42.v) for ALL programs built from operators, for/while loops with a carried value, cond/elif/else, adjoint and ctrl of sub-functions and (captured) subroutines: interpreting the captured program with the CollectOpsandMeas rules yields exactly the tidy direct tape (subroutine nodes expanded); the real tape-mode qp.ctrl quirk (X flips around an all-true controlled body) has the same denotation in every group-like semantics obeying the control-value law; the adjoint rule reverses and adjoints (nested adjoints restore the order), the ctrl rule wraps every op keeping order, the for_loop rule unrolls like Python range. Tie: every run generates random structured quantum functions (dyadic parameters depending on loop indices, carried values and dynamic arguments), builds them (1) with capture disabled via make_qscript and (2) with capture enabled via jax.make_jaxpr + qp.tape.plxpr_to_tape, and compares BOTH canonical op lists with the model evaluated inside Coq, the measurement lists, and the default.qubit results (1e-9). Second clause: `decompose` (the only transform with a plxpr implementation in this checkout, DecomposeInterpreter / decompose_plxpr_to_plxpr) applied through plxpr vs on the tape: same default.qubit results (1e-9).",
-    "note": "Trusted: Coq kernel; JAX tracing itself (the translation `capture` models the SHAPE of the traced program: it is tied only through the end-to-end correspondence), classical jaxpr equations are abstracted as expression evaluation; the hand transcription of the interpreter rules is tied by correspondence only. Not covered: dynamic shapes, autograph, mid-circuit measurements / Conditional ops, eager (lazy=False) adjoint, work wires, allocation, qnode/grad primitives, operators returned from branches. Transforms other than decompose have NO plxpr implementation in this checkout (a `transform` primitive is not interpreted by plxpr_to_tape) and are outside the second clause; for decompose only results are compared (op lists legitimately differ: adjoint_transform/subroutine bodies are decomposed inside the primitive).",
+    "note": "Trusted: Coq kernel; JAX tracing itself (the translation `capture` models only the SHAPE of the traced program and is tied through the end-to-end correspondence), classical jaxpr equations are abstracted as expression evaluation; the hand transcription of the interpreter rules is tied by correspondence only. Canonical op form: Adjoint -> OAdj, every controlled class (CNOT, Toffoli, MultiControlledX, CRY, ControlledOp2, Controlled ...) -> one OCtrl node (control wires/values, base), CollectedSubroutine -> OSub; the op-level functions ops.ctrl / ops.adjoint are shared by both paths and modelled structurally (op_ctrl merges nested controls, outer first). Captured tapes are executed after convert_to_numpy_parameters (jax arrays -> numpy, same operators). Not covered: dynamic shapes, autograph, mid-circuit measurements / Conditional ops, eager (lazy=False) adjoint, work wires, allocation, qnode/grad primitives, operators returned from branches, errors raised in code that never runs (tracing visits dead code and unrolls statically empty ranges: zero-step loops are generated only in top-level statements). Transforms other than decompose have NO plxpr implementation in this checkout (a `transform` primitive is not interpreted by plxpr_to_tape: it silently yields an empty tape) and are outside the second clause; for decompose only results are compared (op lists legitimately differ: adjoint_transform / subroutine bodies are decomposed inside the primitive and come back as Adjoint(gate) / CollectedSubroutine). Genuine finding reported under the stable key exec:adjoint-of-adjoint-of-CollectedSubroutine (see module docstring).",
     "assumptions": ["static loop bounds / concrete predicates at interpretation time (values are known when plxpr_to_tape runs)",
                     "semantic equivalence of the tape-mode ctrl X-flip quirk is proved relative to the control-value law den(ctrl_v U) = F den(ctrl U) F stated as a Section hypothesis",
                     "JAX tracing, dynamic shapes and autograph are oracles / out of scope"],
@@ -93,7 +99,9 @@ def g_stmt(rng, depth, nest, cl, nx):
     if nest >= 3 or r < 0.34:
         return g_op(rng, depth, nx)
     if r < 0.46:
-        step = rng.choice([1, 1, 1, 1, 2, -1, -1, -2]) if rng.random() > 0.02 else 0
+        # a zero step only in top-level statements: tracing also visits code that never runs (and a statically
+        # empty range is unrolled at trace time), so a zero step in dead code raises only under capture
+        step = rng.choice([1, 1, 1, 1, 2, -1, -1, -2]) if (rng.random() > 0.03 or nest > 0) else 0
         span = ["%", g_expr(rng, depth), rng.choice([3, 4]) if nest == 0 else 3]
         lo = ["%", g_expr(rng, depth), 3] if rng.random() < 0.6 else ["c", rng.choice([0, 1, 2])]
         if step > 0 or step == 0:
@@ -179,6 +187,10 @@ CORPUS = [
         ["ctrl", [4], [False], 0, False, [["call", 1, 5, 0, True, [["op", 0, [["c", 0]], [[1, 0, ["c", 0]]]], ["op", 10, [["c", 1], ["c", 2]], []]]]]],
         ["for", ["c", 0], ["c", 2], ["c", 1], ["c", 0], ["v", 1], [["call", 1, 9, 1, False, [["op", 1, [["v", 0]], [[0, 0, ["v", 0]]]]]]]],
         ["call", 0, 0, 1, True, [["op", 15, [["c", 0], ["c", 1]], [[1, 0, ["v", 0]]]]]]]},
+    # FINDING: adjoint(adjoint(captured subroutine)) -> Adjoint(Adjoint(CollectedSubroutine)) does not execute
+    {"xs": [4, 0], "ns": [0, 0], "meas": [["expval", "Z", 0]], "prog": [
+        ["op", 7, [["c", 0]], []],
+        ["adj", 0, False, [["adj", 0, False, [["call", 1, 2, 0, False, [["op", 2, [["c", 0]], [[1, 0, ["c", 0]]]]]]]]]]]},
     # step 0 (both must raise), cond without else and no true predicate, empty range
     {"xs": [1, 1], "ns": [0, 0], "meas": [["expval", "Z", 0]], "prog": [
         ["op", 7, [["c", 0]], []],
@@ -363,7 +375,14 @@ def run(ctx):
         if d["meas"] != expected_meas(c) or cp["meas"] != expected_meas(c):
             ctx.violation("meas:" + key, rep, what="measurements of the direct / captured tape differ from the program's")
         if "exec_err" in o:
-            ctx.violation("exec:" + key, rep | {"exec_err": o["exec_err"]}, what="executing the two tapes on default.qubit failed")
+            if '["A", ["A", ["S"' in json.dumps(cp["ops"]) and "NoneType" in o["exec_err"]:
+                # one stable key for this failure mode (see FINDING in the module docstring)
+                ctx.violation("exec:adjoint-of-adjoint-of-CollectedSubroutine", rep | {"exec_err": o["exec_err"]},
+                              what="the tape returned by plxpr_to_tape for adjoint(adjoint(captured subroutine)) cannot be "
+                                   "executed on default.qubit (Adjoint(Adjoint(CollectedSubroutine)).decomposition() == [None]); "
+                                   "the directly built tape executes")
+            else:
+                ctx.violation("exec:" + key, rep | {"exec_err": o["exec_err"]}, what="executing the two tapes on default.qubit failed")
         elif o.get("maxdiff", 1e9) > 1e-9:
             ctx.violation("results:" + key, rep | {"res_d": o.get("res_d"), "res_c": o.get("res_c")},
                           what="capture -> plxpr_to_tape gives different default.qubit results than direct taping")
